@@ -4,6 +4,7 @@
                   op <id> <polish tree> <dense hex> <readable hex>          (operator trees)
                   st <id> <0|1> <A hex> <B hex> <AB dense hex> <AB readable hex>   (statement boundaries)
                   str <id> <value hex> <dense hex> <readable hex>            (one string literal)
+                  istr <id> <value hex> <dense hex> <readable hex>           (one backtick string, one text segment)
    Output lines:  bad <id> <diag>     for every case where check_case is false;   done <count> *)
 open C02_model
 
@@ -59,7 +60,17 @@ let item_of s =
     in
     { imode = mode; itext = text }
 
-(* operator trees in Polish notation: B<i>,l,r  U<i>,x  P,x  C<0|1>,x  A<k> *)
+(* type codes of the cast stream (harness type_of_code / Model.Precedence.ty) *)
+let rec ty_of_code s =
+  let rest () = ty_of_code (String.sub s 1 (String.length s - 1)) in
+  match s.[0] with
+  | 'n' -> TyName false | 'N' -> TyName true | 'f' -> TyField false | 'F' -> TyField true
+  | '>' -> TyFunType (rest ()) | 'v' -> TyFunVariadic (rest ()) | 'k' -> TyFunPack | 'g' -> TyFunGeneric
+  | 'u' -> TyUnion (rest ()) | 'i' -> TyInter (rest ()) | 'o' -> TyOptional | 'y' -> TyTypeOf | 't' -> TyTable
+  | 'a' -> TyArray | 'p' -> TyParen | 's' -> TyString | 'b' -> TyBool | 'z' -> TyNil
+  | _ -> failwith "bad type code"
+
+(* operator trees in Polish notation: B<i>,l,r  U<i>,x  P,x  C<type code>,x  A<k> *)
 let parse_polish s =
   let toks = ref (String.split_on_char ',' s) in
   let next () = match !toks with t :: r -> toks := r; t | [] -> failwith "polish: short" in
@@ -71,7 +82,7 @@ let parse_polish s =
     | 'B' -> let o = List.nth binops (arg ()) in let l = go () in let r = go () in EBin (o, l, r)
     | 'U' -> let u = List.nth unops (arg ()) in EUn (u, go ())
     | 'P' -> EParen (go ())
-    | 'C' -> let k = if arg () = 0 then CBare else CParam in let x = go () in ECast (x, k)
+    | 'C' -> let k = ty_of_code (String.sub t 1 (String.length t - 1)) in let x = go () in ECast (x, k)
     | _ -> failwith "polish: bad token"
   in
   let e = go () in
@@ -96,6 +107,10 @@ let () =
          let c = { v_value = bytes_of_hex value; v_dense = bytes_of_hex dense; v_readable = bytes_of_hex readable } in
          incr count;
          if not (vcheck_case c) then Printf.printf "bad %s %s\n" id (string_of_bytes (vdiag_bytes c))
+       | [ "istr"; id; value; dense; readable ] ->
+         let c = { v_value = bytes_of_hex value; v_dense = bytes_of_hex dense; v_readable = bytes_of_hex readable } in
+         incr count;
+         if not (icheck_case c) then Printf.printf "bad %s INTERP-STRING\n" id
        | [ "st"; id; exprend; a; b; dense; readable ] ->
          let c = { s_exprend = (exprend = "1"); s_a = bytes_of_hex a; s_b = bytes_of_hex b;
                    s_dense = bytes_of_hex dense; s_readable = bytes_of_hex readable } in
